@@ -1,7 +1,7 @@
-(* Model of the ENABLE_PEDANTIC switch (C09).  The data (body of is_enabled, the literals
-   assigned by enable/disable, which decorator reaches which guard, every reference to the
-   switch in the package) is regenerated from /repo into Gen/EnvSwitch.v on every run by
-   translator/t_wrappers.py; this file interprets it.  No proofs here.                     *)
+(* Model of the ENABLE_PEDANTIC switch (C09).  The data (name of the variable, body of is_enabled,
+   the literals assigned by enable/disable, which decorator reaches which guard, what lies behind
+   the guards, every reference to the switch in the package) is regenerated from /repo into
+   Gen/Env.v on every run by translator/t_env.py; this file interprets it.  No proofs here.    *)
 From Coq Require Import List Bool String Arith.
 From PV Require Import Base.Exn.
 Import ListNotations.
@@ -48,19 +48,23 @@ Definition run_assign (a : env_assign) (e : envv) : envv :=
 Inductive site := SitePedantic | SiteForAll.
 Inductive phase := PhEnvLogic | PhModule | PhDecoration (s : site) | PhCall (s : site) | PhElsewhere.
 Inductive ref_kind := RImport | RIsEnabledCall | RSwitchRead | RSwitchWrite | RVarName | RVarLiteral
-                    | RToggle | RForeignRead | RUnknown.
+                    | RToggle | RForeignRead | RUnknown
+                    | RDecoUse.      (* one of the seven decorators is used (applying it reads the switch) *)
 Record env_ref := { er_file : string; er_scope : string; er_line : nat; er_kind : ref_kind;
                     er_guard : bool; er_phase : phase }.
 Inductive route := RouteGuard (s : site) | RouteVia (name : string) | RouteNoGuard.
 
 (* a reference is harmless iff it is inside env_var_logic.py, an import of the names, one of the two
-   first-statement guards, or a read of a *caller-named* other variable (EnvironmentVariableParameter) *)
+   first-statement guards, a read of a *caller-named* other variable (EnvironmentVariableParameter),
+   or the use of a decorator inside one of the exact-shape shortcuts (er_guard), which run at
+   decoration time of the shortcut *)
 Definition ref_allowed (r : env_ref) : bool :=
   match er_phase r, er_kind r with
   | PhEnvLogic, _ => true
   | _, RImport => true
   | PhDecoration _, RIsEnabledCall => er_guard r
   | _, RForeignRead => true
+  | PhElsewhere, RDecoUse => er_guard r
   | _, _ => false
   end.
 
@@ -68,7 +72,7 @@ Definition is_guard_ref (r : env_ref) : bool :=
   match er_phase r, er_kind r with PhDecoration _, RIsEnabledCall => er_guard r | _, _ => false end.
 
 Definition reads_switch (k : ref_kind) : bool :=
-  match k with RIsEnabledCall | RSwitchRead | RUnknown => true | _ => false end.
+  match k with RIsEnabledCall | RSwitchRead | RUnknown | RDecoUse => true | _ => false end.
 
 (* ---- the seven decorators --------------------------------------------------------------- *)
 Inductive dkind := DPedantic | DPedanticReqDoc | DPedanticClass | DPedanticClassReqDoc
@@ -95,8 +99,10 @@ Definition site_relevant (d : dkind) (s : site) : bool :=
   end.
 
 Record switch_model := {
+  sm_var : string;                                   (* name of the environment variable *)
   sm_prog : list ie_stmt; sm_enable : env_assign; sm_disable : env_assign;
-  sm_routes : list (string * route); sm_refs : list env_ref }.
+  sm_routes : list (string * route); sm_refs : list env_ref;
+  sm_paths : list (site * bool) }.                   (* behind the guard the decorator installs its wrapper(s) *)
 
 Inductive dobj := Identity (x : nat) | Wrapped (d : dkind) (x : nat).
 Record state := { env : envv; objs : list dobj }.
@@ -134,11 +140,18 @@ Section Model.
 
   Definition is_enabled (e : envv) : outcome bool := run_is_enabled (sm_prog M) e.
 
+  (* every guard site whose wrappers run when an object decorated by d is called does install them *)
+  Definition site_wraps (s : site) : bool :=
+    existsb (fun p => site_eqb (fst p) s && snd p) (sm_paths M).
+  Definition wraps (d : dkind) : bool :=
+    forallb (fun s => negb (site_relevant d s) || site_wraps s) [SitePedantic; SiteForAll].
+
   Definition call_behaviour (o : dobj) (e : envv) : behaviour :=
     match o with
     | Identity _ => Plain
     | Wrapped d _ =>
-      if call_reads d then
+      if negb (wraps d) then Plain
+      else if call_reads d then
         match is_enabled e with Ok true => Checked | Ok false => Plain | Raise _ => CallRaises end
       else Checked
     end.
